@@ -20,6 +20,24 @@ def pick(n, lo, hi):
     raise AssertionError("pick: value outside [%d,%d]" % (lo, hi))
 
 
+def decide(c, allowed):
+    """Concretise one schedule choice *lazily* from inside an untraced region: tracing is
+    resumed just for the comparisons, so the solver forks here and nowhere else.
+    Returns None when the value is none of the allowed ones (caller prunes the path)."""
+    if type(c) is int:
+        return c
+    if NoTracing is not None and not is_tracing():
+        with ResumedTracing():
+            for a in allowed:
+                if c == a:
+                    return a
+            return None
+    for a in allowed:
+        if c == a:
+            return a
+    return None
+
+
 def pick_bool(b):
     if b:
         return True
